@@ -23,6 +23,12 @@ from .common import Rng
 # member names: plain ones and some that need an alias on the wire
 PLAIN_NAMES = ["a", "b", "c", "d", "e", "f", "g", "h", "item", "count", "name", "value", "kind", "size", "tags", "meta"]
 ALIAS_NAMES = ["kebab-name", "class", "with space", "CamelCase", "x.y", "1st"]
+# (needs sanitising, plain identifier) pairs that collapse to ONE Python identifier
+COLLIDING = [("user-id", "user_id"), ("x.rate", "x_rate"), ("a b", "a_b"), ("order id", "order_id"), ("k-v", "k_v")]
+# integer bounds a double cannot represent / the edges of int64
+BIG_INTS = [2**53 + 1, 2**53 + 3, 2**63 - 1, -(2**53) - 1, 2**62 + 1]
+# names the field-name resolver changes: not an identifier, a keyword, (with --snake-case-field) camel case
+RENAMED_NAMES = ["first-name", "class", "order id", "1st", "x.y", "import", "OrderId", "CamelCase", "kebab-name"]
 DEF_NAMES = ["Pos", "Node", "Pet", "Cat", "Dog", "Color", "Amount", "Label", "Items", "Base", "Extra"]
 # strings never look like numbers or booleans (no lax str→int / str→bool coercion can apply)
 LETTERS = "qzkwv"
@@ -57,7 +63,14 @@ class GenCfg:
     recursive_refs: bool = True
     ap_schema_with_props: bool = False
     roots: bool = True  # non-object roots (root models)
-    boost: str = ""  # "allOf" / "union": make that construct frequent
+    boost: str = ""  # "allOf" / "union" / "disc": make that construct frequent
+    discriminators: bool = False  # OpenAPI `discriminator` on oneOf/anyOf of object definitions
+    allof_own_required: bool = True  # allOf-level `required` naming members declared inline (incl. renamed ones)
+    colliding_names: bool = True  # two wire names that give the same Python identifier ("user-id", "user_id"), either order
+    big_bounds: bool = True  # integer bounds at the edges of int64 / beyond 2**53 (not representable as a double)
+    name_clashes: bool = True  # inline objects under the same property name in different parents (Address, Address1)
+    twins: bool = True  # definitions that differ in ONE detail (additionalProperties, a constant, a bound, required) or in nothing
+    chains: bool = True  # allOf inheritance chains of three or more classes, names in any alphabetical order
 
 
 def validator_for(doc: dict):
@@ -73,11 +86,23 @@ class DocGen:
         self.defs: dict[str, dict] = {}
         self.features: set[str] = set()
         self._names = 0
+        self.disc_targets: set[str] = set()  # definitions whose class the discriminator pass rewrites
 
     # -- scalars
     def integer(self, nullable: bool = False) -> dict:
         r = self.rng
         s: dict[str, Any] = {"type": ["integer", "null"] if nullable else "integer"}
+        if self.cfg.big_bounds and not self.cfg.draft4 and r.chance(1, 12):
+            # a bound that is exact as an integer and not as a double
+            b = r.choice(BIG_INTS)
+            # (exclusive bounds pass through `float` in JsonSchemaObject and lose the last digit: known finding D42;
+            # they are in the focused corpus, not in the seeded stream)
+            kw = r.choice(["minimum", "maximum"])
+            s[kw] = b
+            self.features.add("big_bound")
+            if nullable:
+                self.features.add("nullable")
+            return s
         lo = r.range(-5, 5)
         if r.chance(2, 3):
             self._lower(s, lo, integer=True)
@@ -214,7 +239,25 @@ class DocGen:
         names = r.sample(pool, n)
         if any(x in ALIAS_NAMES for x in names):
             self.features.add("alias")
+        if self.cfg.colliding_names and self.cfg.alias_names and r.chance(1, 10):
+            a, b = r.choice(COLLIDING)
+            pair = [a, b] if r.chance(1, 2) else [b, a]  # the one that needs sanitising first, or second
+            names = [x for x in names if x not in pair] + pair
+            self.features.add("colliding_names")
+            self.features.add("alias")
         props = {nm: self.member(depth + 1) for nm in names}
+        if self.cfg.name_clashes and depth <= 1 and r.chance(1, 10):
+            # the same inline property name under two parents: both objects want the class name `Address`
+            inner = r.choice(["address", "item", "detail"])
+            for i, parent in enumerate(r.sample(["home", "work", "billing", "shipping"], 2)):
+                sub = self.object_(depth + 2)
+                sub.pop("additionalProperties", None)
+                if i == r.below(2) or r.chance(1, 2):
+                    sub["additionalProperties"] = False
+                    self.features.add("ap_false")
+                props[parent] = {"type": "object", "properties": {inner: sub, "n": {"type": "integer"}}, "required": [inner]}
+                names = [*names, parent]
+            self.features.add("name_clash")
         s: dict[str, Any] = {"type": "object", "properties": props}
         req = [nm for nm in names if r.chance(1, 2)]
         if req:
@@ -260,7 +303,7 @@ class DocGen:
     def ref(self, depth: int) -> dict:
         r = self.rng
         self.features.add("ref")
-        existing = [k for k, v in self.defs.items() if v]
+        existing = [k for k, v in self.defs.items() if v and k not in self.disc_targets]
         if existing and r.chance(1, 2):
             return {"$ref": f"#/definitions/{r.choice(existing)}"}
         name = self.fresh_def(r.choice(DEF_NAMES))
@@ -298,7 +341,39 @@ class DocGen:
         r = self.rng
         key = r.choice(["anyOf", "oneOf"])
         self.features.add(key)
-        shape = r.below(4)
+        shape = r.below(6)
+        if shape == 5:
+            # nullable reference to a scalar definition that carries constraints
+            name = self.fresh_def(r.choice(["Amount", "Label", "Code", "Score"]))
+            self.defs[name] = self.integer() if r.chance(1, 2) else self.string()
+            self.features.add("scalar_def")
+            self.features.add("nullable_ref")
+            self.features.add("nullable")
+            self.features.add("ref")
+            alts = [{"$ref": f"#/definitions/{name}"}, {"type": "null"}]
+            if r.chance(1, 3):
+                alts.reverse()
+            return {key: alts}
+        if shape == 4 and depth < self.cfg.max_depth:
+            # tagged records: definitions with the same members, told apart only by a constant that is the
+            # name of the record type (`kind: const "Cat"` in Cat, `kind: const "Dog"` in Dog)
+            self.features.add("tagged_records")
+            proto = self.object_(depth + 1)
+            proto["additionalProperties"] = False
+            tag = r.choice(["kind", "type", "tag"])
+            proto["properties"].pop(tag, None)
+            names = [self.fresh_def(b) for b in r.sample(["Cat", "Dog", "Bird", "Fish"], r.range(2, 3))]
+            alts = []
+            for nm in names:
+                body = copy.deepcopy(proto)
+                lit = {"const": nm} if (r.chance(1, 2) and not self.cfg.draft4) else {"type": "string", "enum": [nm]}
+                body["properties"] = {tag: lit, **body["properties"]}
+                body["required"] = [tag] + [x for x in body.get("required", []) if x != tag]
+                self.defs[nm] = body
+                alts.append({"$ref": f"#/definitions/{nm}"})
+            return {key: alts}
+        if shape == 4:
+            shape = 0
         if shape == 0:
             alts = [self.integer(), self.string()]
         elif shape == 1:
@@ -325,6 +400,130 @@ class DocGen:
             alts.reverse()
         return {key: alts}
 
+    def disc_union(self, depth: int) -> dict:
+        """oneOf/anyOf over fresh object definitions + `discriminator`: explicit mapping (several keys may
+        select the same definition) or none (each definition is selected by its own name)"""
+        r = self.rng
+        self.features.add("discriminator")
+        prop = r.choice(["kind", "kind", "pet-type", "type", "class", "petType"])
+        n = r.range(2, 3)
+        names = [self.fresh_def(b) for b in r.sample(["Cat", "Dog", "Lizard", "Bird", "Fish"], n)]
+        self.disc_targets.update(names)
+        explicit = r.chance(2, 3)
+        pool = ["cat", "dog", "puppy", "lizard", "gecko", "bird", "fish", "kq", "zw", "big-one"]
+        keys = r.sample(pool, min(len(pool), 2 * n))
+        mapping: dict[str, str] = {}
+        tags: dict[str, list[str]] = {}
+        for i, nm in enumerate(names):
+            if explicit:
+                ks = [keys[2 * i]] + ([keys[2 * i + 1]] if r.chance(1, 2) else [])
+                if len(ks) > 1:
+                    self.features.add("discriminator_multikey")
+            else:
+                ks = [nm]
+            tags[nm] = ks
+        if explicit:
+            # mapping order is independent of the order of the alternatives
+            items = [(k, nm) for nm in names for k in tags[nm]]
+            if r.chance(1, 2):
+                items.reverse()
+            mapping = {k: f"#/definitions/{nm}" for k, nm in items}
+        else:
+            self.features.add("discriminator_implicit")
+        for i, nm in enumerate(names):
+            body = self.object_(depth + 1)
+            body["properties"].pop(prop, None)
+            mark = f"m{nm.lower()}"
+            body["properties"][mark] = self.scalar() if r.chance(1, 2) else {"type": "integer"}
+            how = r.below(6)
+            if how < 3:
+                tag_schema: dict | None = {"type": "string"}
+            elif how == 3:
+                tag_schema = {"type": "string", "enum": list(tags[nm])}
+            elif how == 4 and len(tags[nm]) == 1 and not self.cfg.draft4:
+                tag_schema = {"const": tags[nm][0]}
+            elif how == 5 and body.get("additionalProperties") is not False:
+                tag_schema = None  # not declared: the pass appends the member
+                self.features.add("discriminator_undeclared_tag")
+            else:
+                tag_schema = {"type": "string"}
+            if tag_schema is not None:
+                body["properties"] = {prop: tag_schema, **body["properties"]}
+            req = [x for x in body.get("required", []) if x in body["properties"] and x not in (prop, mark)]
+            body["required"] = ([prop] if tag_schema is not None else []) + [mark] + req
+            self.defs[nm] = body
+        key = r.choice(["oneOf", "anyOf"])
+        d: dict[str, Any] = {"propertyName": prop}
+        if explicit:
+            d["mapping"] = mapping
+        alts = [{"$ref": f"#/definitions/{nm}"} for nm in names]
+        if r.chance(1, 3):
+            alts.reverse()
+        return {key: alts, "discriminator": d}
+
+    def twins(self, depth: int) -> dict:
+        """two definitions with the same members that differ in ONE detail — or in nothing (what a
+        de-duplicating pass must tell apart, resp. may merge)"""
+        r = self.rng
+        self.features.add("twins")
+        proto = self.object_(depth + 1)
+        proto.pop("additionalProperties", None)
+        n1, n2 = self.fresh_def(r.choice(["Cat", "Pos", "Item", "Node"])), self.fresh_def(r.choice(["Dog", "Point", "Entry", "Leaf"]))
+        a, b = copy.deepcopy(proto), copy.deepcopy(proto)
+        how = r.below(6)
+        if how == 0:
+            a["additionalProperties"], b["additionalProperties"] = False, True
+            self.features.add("twins_ap")
+            self.features.add("ap_false")
+        elif how == 1:
+            a["additionalProperties"] = False
+            self.features.add("twins_ap")
+            self.features.add("ap_false")
+        elif how == 2:
+            nm = next((k for k, v in b["properties"].items() if isinstance(v, dict) and v.get("type") == "integer" and "minimum" in v), None)
+            if nm:
+                b["properties"][nm]["minimum"] += 1
+                self.features.add("twins_bound")
+        elif how == 3:
+            names = list(b["properties"])
+            if names:
+                nm = r.choice(names)
+                req = list(b.get("required", []))
+                b["required"] = [x for x in req if x != nm] if nm in req else [*req, nm]
+                if not b["required"]:
+                    b.pop("required")
+                self.features.add("twins_required")
+        elif how == 4 and not self.cfg.draft4:
+            a["properties"] = {"kind": {"const": n1}, **a["properties"]}
+            b["properties"] = {"kind": {"const": n2}, **b["properties"]}
+            self.features.add("twins_const")
+        if r.chance(1, 2):
+            a, b = b, a  # which of the two comes first
+        self.defs[n1], self.defs[n2] = a, b
+        self.features.add("ref")
+        return {"type": "object", "properties": {"p": {"$ref": f"#/definitions/{n1}"}, "q": {"$ref": f"#/definitions/{n2}"}}, "required": ["p"]}
+
+    def chain(self, depth: int) -> dict:
+        """an allOf inheritance chain of three or four classes; the names are drawn without regard to
+        the direction of inheritance (a subclass may sort before its base, on several levels)"""
+        r = self.rng
+        self.features.add("allOf")
+        self.features.add("allOf_chain")
+        self.features.add("ref")
+        n = r.range(3, 4)
+        pool = r.choice([["Vehicle", "Motorised", "Car", "Cabriolet"], ["Zebra", "Mammal", "Animal", "Being"], ["Alpha", "Beta", "Gamma", "Delta"]])
+        if r.chance(1, 2):
+            pool = r.sample(pool, len(pool))
+        names = [self.fresh_def(b) for b in pool[:n]]
+        members = r.sample(PLAIN_NAMES, min(len(PLAIN_NAMES), 2 * n))
+        for i, nm in enumerate(names):
+            own = members[2 * i : 2 * i + 2]
+            body = {"type": "object", "properties": {m: self.scalar() for m in own}}
+            if r.chance(1, 2):
+                body["required"] = [own[0]]
+            self.defs[nm] = body if i == 0 else {"allOf": [{"$ref": f"#/definitions/{names[i - 1]}"}, body]}
+        return {"$ref": f"#/definitions/{names[-1]}"}
+
     def all_of(self, depth: int) -> dict:
         r = self.rng
         self.features.add("allOf")
@@ -333,6 +532,11 @@ class DocGen:
             parts.append(self.object_ref(depth))
         inline = self.object_(depth + 1)
         inline.pop("additionalProperties", None)
+        if self.cfg.allof_own_required and self.cfg.alias_names and r.chance(1, 2):
+            # members whose JSON name is not their Python name
+            for nm in r.sample(RENAMED_NAMES, r.range(1, 2)):
+                inline["properties"].setdefault(nm, self.scalar() if r.chance(3, 4) else self.enum())
+            self.features.add("alias")
         # members of the parts must not clash (a clash is an override, a different topic)
         used: set[str] = set()
         for p in parts:
@@ -354,21 +558,47 @@ class DocGen:
             inline.pop("required")
         if inline["properties"]:
             parts.append(inline)
-        if r.chance(1, 3) and used:
+        out: dict[str, Any] = {"allOf": parts}
+        own = list(inline["properties"])
+        if self.cfg.allof_own_required and own and r.chance(1, 2):
+            # allOf-level `required` naming members the class declares itself (renamed ones included)
+            names = r.sample(own, r.range(1, min(3, len(own))))
+            if r.chance(3, 4):
+                parts.append({"required": names})
+                self.features.add("allOf_required_own")
+            else:
+                out["required"] = names  # `required` next to `allOf`
+                self.features.add("allOf_required_sibling")
+            if any(x in RENAMED_NAMES for x in names):
+                self.features.add("allOf_required_renamed")
+        elif r.chance(1, 3) and used:
             # allOf-level `required` naming a member declared by a referenced part
             cand = sorted(used)
             parts.append({"required": [r.choice(cand)]})
             self.features.add("allOf_required")
-        return {"allOf": parts}
+        return out
 
     def member(self, depth: int) -> dict:
         r = self.rng
         deep = depth >= self.cfg.max_depth
         k = r.below(20)
         if self.cfg.boost == "allOf" and k < 4 and not deep and self.cfg.all_of:
-            return self.all_of(depth)
+            return self.chain(depth) if (self.cfg.chains and k == 0) else self.all_of(depth)
         if self.cfg.boost == "union" and k < 4 and not deep and self.cfg.unions:
             return self.union(depth)
+        if self.cfg.discriminators and not deep and (k == 19 or (self.cfg.boost == "disc" and k < 5)):
+            u = self.disc_union(depth)
+            place = r.below(5)
+            if place == 0:
+                self.features.add("discriminator_in_array")
+                return {"type": "array", "items": u}
+            if place == 1:
+                # a definition that is the discriminated union itself (root model)
+                name = self.fresh_def("Pet")
+                self.defs[name] = u
+                self.features.add("discriminator_def")
+                return {"$ref": f"#/definitions/{name}"}
+            return u
         if k < 6:
             return self.scalar()
         if k < 8:
@@ -383,11 +613,15 @@ class DocGen:
             return self.object_(depth + 1)
         if k == 14 and self.cfg.dict_values:
             return self.dict_(depth)
+        if k == 16 and self.cfg.twins and not deep and r.chance(1, 2):
+            return self.twins(depth)
         if k in (15, 16) and not deep:
             return self.ref(depth)
         if k == 17 and self.cfg.unions and not deep:
             return self.union(depth)
         if k == 18 and self.cfg.all_of and not deep:
+            if self.cfg.chains and r.chance(1, 4):
+                return self.chain(depth)
             return self.all_of(depth)
         return self.scalar()
 
@@ -522,16 +756,189 @@ def _str_candidates(s: dict) -> list[str]:
     return out
 
 
+def disc_selection(s: dict) -> tuple[str, list[tuple[str, str]]]:
+    """(property name, [(tag value, "$ref" it selects)]) of a discriminated union node: the mapping as
+    written, or — without one — every alternative under its own schema name"""
+    d = s["discriminator"]
+    prop = d["propertyName"] if isinstance(d, dict) else d
+    alts = [a["$ref"] for a in (s.get("oneOf") or s.get("anyOf") or []) if isinstance(a, dict) and "$ref" in a]
+    mapping = d.get("mapping") if isinstance(d, dict) else None
+    if mapping:
+        tail = {a.rsplit("/", 1)[1]: a for a in alts}
+        sel = []
+        for k, r in mapping.items():
+            r2 = r if "/" in r else tail.get(r, r)
+            sel.append((k, tail.get(r2.rsplit("/", 1)[1], r2)))
+        return prop, sel
+    return prop, [(a.rsplit("/", 1)[1], a) for a in alts]
+
+
+def disc_ok(doc: dict, s: Any, v: Any, depth: int = 0) -> bool:
+    """What OpenAPI's `discriminator` adds to JSON-Schema validity (jsonschema ignores the keyword):
+    wherever a discriminated union applies, the value carries the tag, the tag selects one of the
+    alternatives and the value is valid under THAT alternative. Checked along the schema (members, items,
+    additionalProperties values, $ref, allOf parts, the alternative(s) of a plain union that match)."""
+    if depth > 12 or not isinstance(s, dict):
+        return True
+    if "$ref" in s:
+        return disc_ok(doc, resolve(doc, s), v, depth + 1)
+    if "discriminator" in s and ("oneOf" in s or "anyOf" in s):
+        prop, sel = disc_selection(s)
+        if not isinstance(v, dict) or not isinstance(v.get(prop), str):
+            return False
+        alts = {a["$ref"] for a in (s.get("oneOf") or s.get("anyOf")) if isinstance(a, dict) and "$ref" in a}
+        hit = [r for k, r in sel if k == v[prop]]
+        if not hit or hit[0] not in alts:
+            return False
+        return sub_validator(doc, {"$ref": hit[0]}).is_valid(v) and disc_ok(doc, {"$ref": hit[0]}, v, depth + 1)
+    for key in ("anyOf", "oneOf"):
+        if key in s:
+            ok = [a for a in s[key] if sub_validator(doc, a).is_valid(v)]
+            return any(disc_ok(doc, a, v, depth + 1) for a in ok) if ok else True
+    for part in s.get("allOf", []):
+        if not disc_ok(doc, part, v, depth + 1):
+            return False
+    if isinstance(v, dict):
+        props = s.get("properties") or {}
+        for k, x in v.items():
+            if k in props:
+                if not disc_ok(doc, props[k], x, depth + 1):
+                    return False
+            elif isinstance(s.get("additionalProperties"), dict) and not disc_ok(doc, s["additionalProperties"], x, depth + 1):
+                return False
+    if isinstance(v, list) and isinstance(s.get("items"), dict):
+        return all(disc_ok(doc, s["items"], x, depth + 1) for x in v)
+    return True
+
+
+def disc_const_tag(doc: dict) -> bool:
+    """a definition selected through a discriminator declares the tag property with `const`"""
+    found = False
+
+    def walk(s: Any) -> None:
+        nonlocal found
+        if isinstance(s, dict):
+            if "discriminator" in s and ("oneOf" in s or "anyOf" in s):
+                prop, sel = disc_selection(s)
+                for _, ref in sel:
+                    d = resolve(doc, {"$ref": ref})
+                    if isinstance(d, dict) and "const" in ((d.get("properties") or {}).get(prop) or {}):
+                        found = True
+            for v in s.values():
+                walk(v)
+        elif isinstance(s, list):
+            for v in s:
+                walk(v)
+
+    walk(doc)
+    return found
+
+
+def allof_required_const(doc: Any) -> bool:
+    """an allOf-level `required` — a property-less member `{"required": [...]}`, or `required` next to `allOf` —
+    names a `const` member declared inline"""
+    if isinstance(doc, list):
+        return any(allof_required_const(x) for x in doc)
+    if not isinstance(doc, dict):
+        return False
+    parts = doc.get("allOf")
+    if isinstance(parts, list):
+        bare = [n for p in parts if isinstance(p, dict) and set(p) == {"required"} for n in p["required"]]
+        bare += list(doc.get("required") or [])  # `required` next to `allOf` marks the finished fields as well
+        for p in parts:
+            if isinstance(p, dict) and isinstance(p.get("properties"), dict):
+                if any(isinstance(ps, dict) and "const" in ps and n in bare for n, ps in p["properties"].items()):
+                    return True
+    return any(allof_required_const(v) for v in doc.values())
+
+
+def undeclared_members(doc: dict, s: Any, v: Any, depth: int = 0) -> set:
+    """how `additionalProperties` is written ("absent" / "true") at the objects of `v` that carry a member
+    their schema does not declare"""
+    out: set = set()
+    if depth > 10 or not isinstance(s, dict):
+        return out
+    s = resolve(doc, s)
+    alts = s.get("anyOf") or s.get("oneOf")
+    if alts:
+        for a in alts:
+            if sub_validator(doc, a).is_valid(v):
+                return undeclared_members(doc, a, v, depth + 1)
+        return out
+    if "allOf" in s:
+        s = merge_all_of(doc, s)
+    if isinstance(v, dict) and isinstance(s.get("properties"), dict):
+        ap = s.get("additionalProperties")
+        for k, x in v.items():
+            if k in s["properties"]:
+                out |= undeclared_members(doc, s["properties"][k], x, depth + 1)
+            elif ap is None or ap is True:
+                out.add("true" if ap is True else "absent")
+    elif isinstance(v, dict) and isinstance(s.get("additionalProperties"), dict):
+        for x in v.values():
+            out |= undeclared_members(doc, s["additionalProperties"], x, depth + 1)
+    if isinstance(v, list) and isinstance(s.get("items"), dict):
+        for x in v:
+            out |= undeclared_members(doc, s["items"], x, depth + 1)
+    return out
+
+
+def has_discriminator(doc: Any) -> bool:
+    if isinstance(doc, dict):
+        return "discriminator" in doc or any(has_discriminator(v) for v in doc.values())
+    if isinstance(doc, list):
+        return any(has_discriminator(v) for v in doc)
+    return False
+
+
+def is_valid(doc: dict, inst: Any) -> bool:
+    """validity under the document: jsonschema + the discriminator reading of OpenAPI"""
+    if not validator_for(doc).is_valid(inst):
+        return False
+    return disc_ok(doc, {k: x for k, x in doc.items() if k not in ("definitions", "title", "x-draft4")}, inst) if has_discriminator(doc) else True
+
+
+def disc_invalid_variants(doc: dict, inst: Any, limit: int = 4) -> list:
+    """instances that jsonschema accepts but the discriminator does not: an object standing in a
+    discriminated union with its tag replaced by a value outside the mapping, or by another branch's tag"""
+    out: list = []
+    body = {k: x for k, x in doc.items() if k not in ("definitions", "title", "x-draft4")}
+
+    def walk(s: Any, v: Any, path: list, depth: int = 0) -> None:
+        if depth > 8 or not isinstance(s, dict) or len(out) >= limit:
+            return
+        s = resolve(doc, s)
+        if "discriminator" in s and ("oneOf" in s or "anyOf" in s):
+            prop, sel = disc_selection(s)
+            if isinstance(v, dict) and isinstance(v.get(prop), str):
+                others = [k for k, _ in sel if k != v[prop]]
+                for t in ["zz_no_such_tag", *others[:1]]:
+                    out.append(_set_path(inst, [*path, prop], t))
+            return
+        if isinstance(v, dict):
+            for k, x in v.items():
+                ps = (s.get("properties") or {}).get(k)
+                if ps is not None:
+                    walk(ps, x, [*path, k], depth + 1)
+        if isinstance(v, list) and isinstance(s.get("items"), dict):
+            for i, x in enumerate(v[:1]):
+                walk(s["items"], x, [*path, i], depth + 1)
+
+    walk(body, inst, [])
+    return [x for x in out if not is_valid(doc, x)]
+
+
 def candidates(doc: dict, s: Any, depth: int = 0, budget: int = 3) -> list:
     """A few candidate values for schema `s` (first = the plainest), each valid under `s` according
-    to jsonschema."""
+    to jsonschema (and to the discriminators below `s`)."""
     if s is True or s == {}:
         return [1, "q"]
     cs = _candidates(doc, s, depth, budget)
     v = sub_validator(doc, s)
+    hd = has_discriminator(s) or has_discriminator(doc.get("definitions"))
     out = []
     for c in cs:
-        if v.is_valid(c) and not any(c == o and type(c) is type(o) for o in out):
+        if v.is_valid(c) and (not hd or disc_ok(doc, s, c)) and not any(c == o and type(c) is type(o) for o in out):
             out.append(c)
     return out
 
@@ -547,6 +954,16 @@ def _candidates(doc: dict, s: Any, depth: int = 0, budget: int = 3) -> list:
         return [s["const"]]
     if "enum" in s:
         return list(s["enum"])
+    if "discriminator" in s and ("anyOf" in s or "oneOf" in s):
+        # every mapping key (or implicit name) with an instance of the definition it selects
+        prop, sel = disc_selection(s)
+        per_ref = {ref: [c for c in candidates(doc, {"$ref": ref}, depth + 1, budget) if isinstance(c, dict)] for _, ref in sel}
+        out = []
+        for rank in (0, 1):  # first one instance per tag (EVERY tag), then a second one
+            for tag, ref in sel:
+                if len(per_ref[ref]) > rank:
+                    out.append({**per_ref[ref][rank], prop: tag})
+        return out
     if "anyOf" in s or "oneOf" in s:
         out = []
         for alt in s.get("anyOf") or s.get("oneOf"):
@@ -600,6 +1017,13 @@ def _array_candidates(doc: dict, s: dict, depth: int, budget: int) -> list:
             arr = [copy.deepcopy(iv[i % len(iv)]) for i in range(n)]
         if arr not in out:
             out.append(arr)
+    if isinstance(items, dict) and has_discriminator(resolve(doc, items)):
+        # every tag of a discriminated item schema occurs in some array
+        n = max(lo, 1)
+        for j in range(1, len(iv)):
+            arr = [copy.deepcopy(iv[(j + i) % len(iv)]) for i in range(n)]
+            if arr not in out:
+                out.append(arr)
     return out
 
 
@@ -611,7 +1035,10 @@ def merge_all_of(doc: dict, s: dict) -> dict:
     ap = None
     from_ref: dict[str, bool] = {}  # member -> declared by a $ref part
     own_req: dict[str, bool] = {}  # member -> required by the part that declares it
-    for part in [{k: v for k, v in s.items() if k != "allOf"}, *s.get("allOf", [])]:
+    bare_req: list = []  # names listed by a property-less part `{"required": [...]}`
+    for idx, part in enumerate([{k: v for k, v in s.items() if k != "allOf"}, *s.get("allOf", [])]):
+        if idx > 0 and isinstance(part, dict) and set(part) == {"required"}:
+            bare_req += list(part["required"])
         p = resolve(doc, part)
         if "allOf" in p:
             p = merge_all_of(doc, p)
@@ -623,7 +1050,7 @@ def merge_all_of(doc: dict, s: dict) -> dict:
         if "additionalProperties" in p:
             ap = p["additionalProperties"]
     out: dict = {"type": "object", "properties": props}
-    inherited = [nm for nm in req if from_ref.get(nm) and not own_req.get(nm)]
+    inherited = [nm for nm in bare_req if from_ref.get(nm) and not own_req.get(nm)]
     if inherited:
         # required only by an allOf-level `required`, declared by a referenced part
         out["x-allof-inherited-required"] = inherited
@@ -656,9 +1083,13 @@ def _object_candidates(doc: dict, s: dict, depth: int, budget: int) -> list:
     out = [full]
     if minimal != full:
         out.append(minimal)
+    if s.get("additionalProperties") is True and "zz_extra" not in props:
+        # an open object that says so: a member it does not declare is part of a valid instance
+        out.append({**copy.deepcopy(full), "zz_extra": 1})
     # one member at a time through its other candidates (boundaries, nulls)
     for nm, vs in per.items():
-        for v in vs[1 : 1 + budget]:
+        wide = has_discriminator(resolve(doc, props[nm])) if isinstance(props[nm], dict) else False
+        for v in vs[1 : 1 + (max(budget, 8) if wide else budget)]:
             inst = copy.deepcopy(full)
             inst[nm] = copy.deepcopy(v)
             if inst not in out:
@@ -667,10 +1098,9 @@ def _object_candidates(doc: dict, s: dict, depth: int, budget: int) -> list:
 
 
 def valid_instances(doc: dict, limit: int = 40) -> list:
-    v = validator_for(doc)
     out = []
     for c in candidates(doc, {k: x for k, x in doc.items() if k not in ("definitions", "title", "x-draft4")}):
-        if v.is_valid(c) and c not in out:
+        if is_valid(doc, c) and c not in out:
             out.append(c)
         if len(out) >= limit:
             break
@@ -756,6 +1186,10 @@ def _outside(s: dict, t: str) -> list[tuple[str, Any]]:
 
 def _cause(keyword: str, leaf: dict) -> str:
     ts = types_of(leaf)
+    if keyword in ("exclusiveMinimum", "exclusiveMaximum"):
+        v = leaf.get(keyword)
+        if isinstance(v, int) and not isinstance(v, bool) and abs(v) > 2**53:
+            return "big_exclusive_bound_through_float"
     if keyword in BOUND_KEYS and "integer" in ts:
         v = leaf.get(keyword)
         if keyword in ("minimum", "maximum") and isinstance(v, float) and v != int(v):
